@@ -7,6 +7,8 @@ mapped_circuit / decompose / unroll outputs, composing constructors) is judged
 against the flat reference program."""
 from __future__ import annotations
 
+import traceback
+
 import numpy as np
 
 from vf.monitors import scripted_rng as SR
@@ -159,7 +161,7 @@ def sec_measured(ctx, rng, case):
         return
     got = ex.distribution()
     tv = L.tv_distance(got, ref)
-    ctx.check(tv <= 1e-6 and abs(ex.total() - 1) < 1e-6, "distribution==flat", "C12:distribution:" + kind,
+    ctx.check(tv <= 1e-6 + ex.cut_mass and abs(ex.total() + ex.cut_mass - 1) < 1e-6, "distribution==flat", "C12:distribution:" + kind,
               lambda: "outcome distribution of the wrapped circuit differs from the unrolled program by TV %.3g" % tv,
               got={str(k): v for k, v in list(got.items())[:6]}, want={str(k): v for k, v in list(ref.items())[:6]}, simulator=kind, **wit)
     # unrolled forms produced by Cirq must have the same keys and the same distribution
@@ -175,8 +177,12 @@ def sec_measured(ctx, rng, case):
     ctx.check(k2 == want_keys, "keys==flat", "C12:" + name + "-keys", "%r vs %r" % (k2, want_keys), **wit)
     try:
         ex2 = _explore_run(c2, kind)
-    except ValueError as e:
-        if "missing when testing classical control" not in str(e):
+    except (ValueError, IndexError) as e:
+        # ValueError "... missing when testing classical control": a control ended up in front of every measurement of its
+        # key; IndexError out of ClassicalDataStore.get_int: in front of the record its index names
+        if isinstance(e, ValueError) and "missing when testing classical control" not in str(e):
+            raise
+        if isinstance(e, IndexError) and not any(fr.name == "get_int" for fr in traceback.extract_tb(e.__traceback__)):
             raise
         ex2 = None  # a control was moved in front of its measurement: counts as a wrong distribution
     if ex2 is None or not ex2.over_budget:
